@@ -93,23 +93,32 @@ theorem C13_pinned_leaves_live_acceptor :
 
 /-- **no channel is left open**: after Shutdown has cancelled the context and CloseAll has finished,
     a channel — already active, still being set up, or accepted concurrently — is never parked in a
-    read; once none of its own steps is enabled it is closed, with its transport closed exactly once
-    and inactive delivered exactly once (or it was never accepted at all) -/
+    read, nor inside its active event (where a handler may be waiting for the peer: `activeDone` is
+    not among the steps the theorem relies on); once none of its own steps is enabled it is closed,
+    with its transport closed exactly once and inactive delivered exactly once (or it was never
+    accepted at all) -/
 theorem C13_no_channel_left_open (acts : List CAct) (s : CSt) (hr : crun {} acts = some s)
     (hd : s.closeAllDone = true) :
-    s.pc ≠ .reading ∧
+    s.pc ≠ .reading ∧ s.pc ≠ .activating ∧
     ((∀ a ∈ [CAct.serve, .add, .loopCheck, .fireInactive], cstep s a = none) → s.pc = .none ∨ (s.pc = .closed ∧ s.closes = 1 ∧ s.inactives = 1)) := by
   have hi := cinv_run acts {} s cinv_init hr
   have hsw := hi.doneSwapped hd
   have hctx := hi.swapCtx hsw
   have hnr : s.pc ≠ .reading := by
     intro hp
-    have hin := hi.loopIn (Or.inr hp)
+    have hin := hi.loopIn (Or.inr (Or.inr hp))
     cases hl : s.loc with
     | notIn => exact hin hl
     | cur => have := hi.readingCur hp hl; simp [hsw] at this
     | old => have := hi.doneOld hd hl; simp [hp] at this
-  refine ⟨hnr, ?_⟩
+  have hna : s.pc ≠ .activating := by
+    intro hp
+    have hin := hi.loopIn (Or.inl hp)
+    cases hl : s.loc with
+    | notIn => exact hin hl
+    | cur => have := hi.activatingCur hp hl; simp [hsw] at this
+    | old => have := hi.doneOld hd hl; simp [hp] at this
+  refine ⟨hnr, hna, ?_⟩
   intro hq
   have q1 := hq .serve (by simp)
   have q2 := hq .add (by simp)
@@ -118,7 +127,8 @@ theorem C13_no_channel_left_open (acts : List CAct) (s : CSt) (hr : crun {} acts
   cases hp : s.pc with
   | none => exact Or.inl rfl
   | accepted => simp [cstep, hp] at q1
-  | started => simp [cstep, hp] at q2
+  | started => simp [cstep, hp, hctx] at q2
+  | activating => exact absurd hp hna
   | loopTop => simp [cstep, hp, hctx] at q3
   | reading => exact absurd hp hnr
   | closed =>
@@ -160,10 +170,42 @@ theorem C13_late_channel_closes_itself (acts : List CAct) (s : CSt) (hr : crun {
   have hin : s.inactives = 0 := by have := hi.once.2; simp [hf, h0] at this; exact this
   simp [crun, cstep, hp, hctx, h0, hin]
 
+/-- a channel registered after the context was cancelled (CloseAll may already have swapped the map
+    and will never see it) is closed on the spot, before the active event reaches the handlers behind
+    the holder -/
+theorem C13_late_activation_closes_at_once (acts : List CAct) (s : CSt) (hr : crun {} acts = some s)
+    (hc : s.ctxDone = true) (hp : s.pc = .started) :
+    (crun s [.add, .fireInactive]).map (fun s' => (s'.pc, s'.closes, s'.inactives)) = some (.closed, 1, 1) := by
+  have hi := cinv_run acts {} s cinv_init hr
+  have h0 : s.closes = 0 := by
+    have h1 := hi.closedIff
+    have h2 := hi.once.1
+    have : s.closes ≠ 1 := fun h => by simp [h1.2 h] at hp
+    omega
+  have hf : s.firePending = false := by
+    have := hi.once.2
+    cases hf : s.firePending with
+    | false => rfl
+    | true => simp [hf, h0] at this
+  have hin : s.inactives = 0 := by have := hi.once.2; simp [hf, h0] at this; exact this
+  simp [crun, cstep, hp, hc, h0, hin]
+
+/-- the holder before the repair (registers and forwards active whatever the context says): a
+    connection accepted before Shutdown whose read-loop goroutine reaches the holder after CloseAll
+    has finished stays inside its active event for as long as the handler waits — Shutdown is over and
+    the channel is open (negation witness; the controller exhibited it on the real code) -/
+theorem C13_pinned_late_activation_stays_open :
+    (crunPinned {} [.accept, .serve, .cancel, .swap, .closeAllEnd, .add]).map (fun s => (s.closeAllDone, s.pc, s.closes)) =
+      some (true, .activating, 0) := by decide
+
 /-- non-vacuity: concrete histories meeting the hypotheses -/
-example : (crun {} [.accept, .cancel, .serve, .swap, .closeAllEnd, .add, .loopCheck, .fireInactive]).map (fun s => (s.closeAllDone, s.pc, s.closes, s.inactives)) =
+example : (crun {} [.accept, .serve, .add, .cancel, .swap, .closeAllVisit, .fireInactive, .closeAllEnd]).map (fun s => (s.closeAllDone, s.pc, s.closes, s.inactives)) =
     some (true, .closed, 1, 1) := by decide
-example : (crun {} [.accept, .serve, .add, .loopCheck, .cancel, .swap, .closeAllVisit, .closeAllEnd]).map (fun s => (s.closeAllDone, s.pc, s.closes)) =
+example : (crun {} [.accept, .cancel, .serve, .swap, .closeAllEnd, .add, .fireInactive]).map (fun s => (s.closeAllDone, s.pc, s.closes, s.inactives)) =
+    some (true, .closed, 1, 1) := by decide
+example : (crun {} [.accept, .serve, .add, .activeDone, .cancel, .swap, .closeAllVisit, .fireInactive, .closeAllEnd, .loopCheck]).map (fun s => (s.closeAllDone, s.pc, s.closes, s.inactives)) =
+    none := by decide
+example : (crun {} [.accept, .serve, .add, .activeDone, .loopCheck, .cancel, .swap, .closeAllVisit, .closeAllEnd]).map (fun s => (s.closeAllDone, s.pc, s.closes)) =
     some (true, .closed, 1) := by decide
 example : (lrun {} [.listen, .cancel, .rangeStart, .closeMark true, .closeUnreg, .rangeEnd, .syncCheck]).map (fun s => (s.shutdownDone, s.pc, s.acc)) =
     some (true, .returned true, .none) := by decide
@@ -181,3 +223,5 @@ end NettyVerif.C13
 #print axioms NettyVerif.C13.C13_no_channel_left_open
 #print axioms NettyVerif.C13.C13_channel_closed_once
 #print axioms NettyVerif.C13.C13_late_channel_closes_itself
+#print axioms NettyVerif.C13.C13_late_activation_closes_at_once
+#print axioms NettyVerif.C13.C13_pinned_late_activation_stays_open
